@@ -4,7 +4,7 @@ import importlib, json, os, sys
 HERE = os.path.dirname(os.path.abspath(__file__))
 sys.path.insert(0, os.path.join(HERE, "..", "rules"))
 NA = {
-    "C09": "Behaviour is decided by SQL text executed by SQLite and by the schema (PRIMARY KEY, UNIQUE, ON CONFLICT); the Rust side is straight-line binding code with no guard, pairing or ordering that carries the map/set semantics — no static clause that is a necessary condition.",
+    "C09": "Behaviour is decided by SQL text executed by SQLite and by the schema (PRIMARY KEY, UNIQUE, ON CONFLICT); the Rust side is straight-line binding code with no guard, pairing or ordering that carries the map/set semantics — no static clause that is a necessary condition (rules/sql.py only analyses the top-level WHERE conjuncts of a statement, which says nothing about INSERT OR IGNORE, ON CONFLICT or schema constraints).",
     "C34": "Window boundaries, queue indices and the HKDF chain are runtime values; the only type-level fact (key material not Clone) is not a necessary condition of the stated behaviour.",
     "C37": "2SM correctness and replay rejection depend on ratchet/prekey state evolving over message histories (values), not on structure visible in the code's shape.",
 }
